@@ -6,7 +6,9 @@ mod c04;
 mod c05;
 mod c12;
 mod c13;
+mod c14;
 mod c15;
+mod c16;
 mod c17;
 mod c18;
 mod c19;
@@ -50,7 +52,9 @@ fn main() {
         "C11" => derived::run("C11", tier),
         "C12" => c12::run(tier),
         "C13" => c13::run(tier),
+        "C14" => c14::run(tier),
         "C15" => c15::run(tier),
+        "C16" => c16::run(tier),
         "C17" => c17::run(tier),
         "C18" => c18::run(tier),
         "C19" => c19::run(tier),
